@@ -201,11 +201,19 @@ class _LibrationDynamicsService(_DynamicsServiceBase):
         if options is None:
             options = self.eigendecomposition_options
             
-        cache_key = self.make_key(id(self.domain_obj), tuple(sorted(options.to_dict().items())))
+        cache_key = self.make_key(
+            id(self.domain_obj),
+            self.eigendecomposition_config,
+            tuple(sorted(options.to_dict().items())),
+        )
 
         def _factory() -> StabilityPipeline:
-            self.generator.compute(self.domain_obj, options=options)
-            return self.generator
+            # One pipeline per cache entry: a shared one would make every entry
+            # show the results of whichever request was computed last
+            generator = StabilityPipeline.with_default_engine(
+                config=self.eigendecomposition_config, interface=_LibrationPointInterface())
+            generator.compute(self.domain_obj, options=options)
+            return generator
 
         return self.get_or_create(cache_key, _factory)
 
